@@ -57,6 +57,7 @@ def showOut : Out Nat Nat C → String
   | .none => "N"
   | .val v => s!"v{v}"
   | .keyError => "!KeyError"
+  | .raised => "!ValueError"
   | .item k v => s!"p{k}.{v}"
   | .bool b => if b then "t" else "f"
   | .nat n => s!"n{n}"
